@@ -119,8 +119,13 @@ def _slow_handshake(args):
     try:
         w.greet = True
         for k in range(3):
-            w.add_client(k + 1, ("10.4.0.%d" % k, 6000 + k))
+            cl = w.add_client(k + 1, ("10.4.0.%d" % k, 6000 + k))
             w.clients[k + 1]["delay"] = delay_ticks + k
+            # an impatient application: it sends right after connect(), without waiting for the connect callback (every retry mode, one large payload)
+            tag = w.aid(w.clients[k + 1]["addr"]).to_bytes(4, "big")
+            cl.send(tag + b"DATAlogin-secret-sent-before-the-handshake-finished", retry=(0, 1, -1)[k])
+            if k == 2:
+                cl.send(tag + b"DATA" + b"early-large-" * 200, retry=1)
         for t in range(60 * 5):
             if t == 200:
                 for k in (1, 2, 3):
